@@ -270,7 +270,7 @@ class Builder:
         fr.ctx.locals = merged
         for o in set(v_then) | set(v_else):
             self.versions[o] = max(v_then.get(o, 0), v_else.get(o, 0))
-        out.append(("branch", cond, tp, ep, self.info(fr, s, src=astx.show(c), cond_ast=c)))
+        out.append(("branch", cond, tp, ep, self.info(fr, s, src=astx.show(c), cond_ast=c, data=is_data_cond(c))))
         return t_ret and e_ret
 
     def loop(self, s, fr, out):
@@ -352,7 +352,23 @@ class Builder:
             if not T.has_unknown(t):
                 inv.append(("not", t))
         fr.ctx.locals = saved_after
-        out.append(("loop", c1, b1, cg, bg, fresh, self.info(fr, s, back_edge_facts=inv)))
+        # counting loop (for (i = init; i < B; ++i), i not modified in the body, every exit under a data-dependent test):
+        # every value in [init, B) is reached for suitable element values, so a generalised state is a real state
+        clr = None
+        cv = counting_var(s) if (k == "for" and not has_effects) else None
+        if cv is not None and cv in saved_l and not T.has_unknown(saved_l[cv]):
+            for an, so in fresh.items():
+                if an.split("@")[0] == cv:
+                    inv.append(("cmp", "<=", saved_l[cv], T.var(an, so)))
+                    if set(a.split("@")[0] for a in fresh) == {cv}:
+                        clr = an
+        dv = down_counting_var(s) if (k == "do" and not has_effects) else None
+        if dv is not None and dv in saved_l and not T.has_unknown(saved_l[dv]):
+            # do { ... } while (i-- != 0): i only decreases and the loop stops at 0, so i <= its initial value
+            for an, so in fresh.items():
+                if an.split("@")[0] == dv:
+                    inv.append(("cmp", "<=", T.var(an, so), saved_l[dv]))
+        out.append(("loop", c1, b1, cg, bg, fresh, self.info(fr, s, back_edge_facts=inv, clr=clr)))
         # state after the loop: exit atoms constrained by (back-edge facts and not cond) or (zero iterations: entry state)
         exit_atoms = {}
         entry_terms = {}
@@ -469,7 +485,7 @@ class Builder:
             return
         if self.oblige_hook and (k == "idx" or (k == "un" and e["op"] == "*")):
             self.oblige_hook(self, fr, out, e, "read", stmt or e)
-        if self.oblige_hook and k in ("construct", "call", "initlist"):
+        if self.oblige_hook and (k in ("construct", "call", "initlist") or (k == "bin" and e["op"] == "+")):
             self.oblige_hook(self, fr, out, e, "node", stmt or e)
         if k == "un" and e["op"] in ("++", "--"):
             self.lvalue_subexprs(e["e"], fr, out)
@@ -1302,6 +1318,122 @@ def collect_modified(s, acc):
             pass
 
 
+ELEMENT_READS = {"unsafe_at", "front", "back", "at", "operator[]", "operator*"}
+
+
+def is_element_read(e):
+    e = astx.strip_casts(e)
+    if e is None:
+        return False
+    if e.get("k") == "idx" or (e.get("k") == "un" and e.get("op") == "*"):
+        return True
+    if e.get("k") == "call" and astx.callee(e)[0] in ELEMENT_READS:
+        return True
+    return False
+
+
+def is_data_cond(c):
+    """the test compares element values (arbitrary caller data): both outcomes are feasible whatever the positions are"""
+    c = astx.strip_casts(c)
+    if c is None:
+        return False
+    if c.get("k") == "un" and c.get("op") == "!":
+        return is_data_cond(c["e"])
+    if c.get("k") == "bin" and c["op"] in ("==", "!=", "<", ">", "<=", ">="):
+        return is_element_read(c["l"]) or is_element_read(c["r"])
+    if c.get("k") == "call":
+        nm = astx.callee(c)[0]
+        if nm in ("eq", "lt") or c["f"].get("k") == "ref" and c["f"].get("d") in ("param", "local"):
+            return any(is_element_read(a) for a in c["a"])
+    return False
+
+
+def declared_in(s):
+    out = set()
+    for st in astx.walk_stmts(s):
+        if st.get("k") == "decl":
+            for v in st["vars"]:
+                out.add(v.get("n"))
+        if st.get("k") == "for" and st.get("init") is not None and st["init"].get("k") == "decl":
+            for v in st["init"]["vars"]:
+                out.add(v.get("n"))
+        if st.get("k") == "rangefor":
+            out.add(st["var"]["n"])
+    return out
+
+
+def exits_data_only(body):
+    """every return/break in the loop body (lambdas excluded) is nested in an if whose test is data-dependent"""
+    def walk(st, under):
+        if st is None:
+            return True
+        k = st.get("k")
+        if k in ("return", "break"):
+            return under
+        if k == "seq":
+            return all(walk(x, under) for x in st["s"])
+        if k == "if":
+            u = under or is_data_cond(st.get("c"))
+            return walk(st.get("then"), u) and walk(st.get("else"), u)
+        if k in ("for", "while", "do", "rangefor"):
+            return walk(st.get("body"), under)
+        if k in ("expr", "decl", "null", "continue"):
+            return True
+        return False
+    return walk(body, False)
+
+
+def down_counting_var(s):
+    c, body = astx.strip_casts(s.get("c")), s.get("body")
+    if c is None or not (c.get("k") == "bin" and c["op"] in ("!=", ">")):
+        return None
+    l, r = astx.strip_casts(c["l"]), astx.strip_casts(c["r"])
+    if not (l is not None and l.get("k") == "un" and l["op"] == "--" and l.get("postfix") and astx.strip_casts(l["e"]).get("k") == "ref"):
+        return None
+    if not (r is not None and r.get("k") == "int" and str(r.get("v")) in ("0", "0U", "0u")):
+        return None
+    name = astx.strip_casts(l["e"])["n"]
+    mod = set()
+    collect_modified(body, mod)
+    if name in mod:
+        return None
+    return name
+
+
+def counting_var(s):
+    """name of i in `for (T i = init; i < B; ++i)` when i is not modified by the body, B does not depend on anything the
+    loop modifies and every exit from the body is data-dependent; None otherwise"""
+    init, c, inc, body = s.get("init"), astx.strip_casts(s.get("c")), astx.strip_casts(s.get("inc")), s.get("body")
+    if init is None or c is None or inc is None:
+        return None
+    name = None
+    if init.get("k") == "decl" and len(init["vars"]) == 1 and init["vars"][0].get("init") is not None:
+        name = init["vars"][0]["n"]
+    elif init.get("k") == "expr":
+        e = astx.strip_casts(init["e"])
+        if e is not None and e.get("k") == "bin" and e["op"] == "=" and astx.strip_casts(e["l"]).get("k") == "ref":
+            name = astx.strip_casts(e["l"])["n"]
+    if name is None:
+        return None
+    if not (inc.get("k") == "un" and inc["op"] == "++" and astx.strip_casts(inc["e"]).get("k") == "ref"
+            and astx.strip_casts(inc["e"])["n"] == name):
+        return None
+    if not (c.get("k") == "bin" and c["op"] == "<" and astx.strip_casts(c["l"]).get("k") == "ref"
+            and astx.strip_casts(c["l"])["n"] == name):
+        return None
+    mod = set()
+    collect_modified(body, mod)
+    mod -= declared_in(body)
+    if mod:
+        return None
+    bound_refs = set(x["n"] for x in astx.walk_expr(c["r"]) if x.get("k") == "ref")
+    if name in bound_refs:
+        return None
+    if not exits_data_only(body):
+        return None
+    return name
+
+
 def always_exits(s):
     if s is None:
         return False
@@ -1385,20 +1517,22 @@ def prog_atoms(prog, acc=None):
 
 # ------------------------------------------------------------------------------------------------- evaluation
 class Trace:
-    __slots__ = ("events", "fired", "fired_uncertain")
+    __slots__ = ("events", "fired", "fired_uncertain", "data_free")
 
     def __init__(self):
         self.events = []
         self.fired = None
         self.fired_uncertain = False
+        self.data_free = False
 
 
-def run(prog, env, general=False):
+def run(prog, env, general=False, data_free=False):
     """Evaluate a program in a model. Returns Trace with events:
        ('guard', info, truth, uncertain) ('effect', kind, info, uncertain) ('oblige', info, truth, uncertain, general)
        ('unreachable', info, uncertain)
     Evaluation of a path stops at a guard that is certainly false (handler is [[noreturn]])."""
     tr = Trace()
+    tr.data_free = data_free
     _run(prog, env, tr, False, general)
     return tr
 
@@ -1449,11 +1583,14 @@ def _run(prog, env, tr, unc, general):
                 if r != "cont":
                     return r
             else:
-                r1 = _run(nd[2], env, tr, True, general)
-                r2 = _run(nd[3], env, tr, True, general)
+                # a test on element values is free (data_free mode): either outcome is a real execution
+                data = tr.data_free and bool(nd[4].get("data"))
+                u2 = unc if data else True
+                r1 = _run(nd[2], env, tr, u2, general)
+                r2 = _run(nd[3], env, tr, u2, general)
                 if r1 != "cont" and r2 != "cont":
-                    return "ret" if unc or True else "ret"
-                if r1 != "cont" or r2 != "cont":
+                    return "ret"
+                if (r1 != "cont" or r2 != "cont") and not data:
                     unc = True
         elif k == "loop":
             c1 = T.truth(nd[3] if general else nd[1], env)
